@@ -117,6 +117,9 @@ func (r *Regex) Pattern() []byte {
 type Rx struct {
 	Re  *Regex
 	Bad []byte
+	// Plain: write the pattern the way people do (`.*`, `a|bc`, `[a-c]+x`), with parentheses only
+	// where precedence needs them, instead of one group per operator
+	Plain bool `json:",omitempty"`
 }
 
 func (x *Rx) Line() string {
@@ -130,7 +133,46 @@ func (x *Rx) Pattern() []byte {
 	if x.Re == nil {
 		return x.Bad
 	}
+	if x.Plain {
+		return x.Re.plain(0)
+	}
 	return x.Re.Pattern()
+}
+
+// plain renders with minimal parentheses; min is the binding strength the context needs
+// (0 alternation, 1 concatenation, 2 repetition operand).
+func (r *Regex) plain(min int) []byte {
+	var out []byte
+	prec := 3
+	switch r.Kind {
+	case "eps", "b", "any", "dot", "cls":
+		return r.Pattern()
+	case "star":
+		prec = 2
+		out = append(r.X.plain(3), '*')
+	case "cat":
+		if r.Sugar == "plus" {
+			prec = 2
+			out = append(r.X.plain(3), '+')
+		} else {
+			prec = 1
+			out = append(r.X.plain(1), r.Y.plain(1)...)
+		}
+	case "alt":
+		if r.Sugar == "opt" {
+			prec = 2
+			out = append(r.X.plain(3), '?')
+		} else {
+			prec = 0
+			out = append(append(r.X.plain(0), '|'), r.Y.plain(0)...)
+		}
+	default:
+		panic("regex kind " + r.Kind)
+	}
+	if prec < min {
+		return append(append([]byte("(?:"), out...), ')')
+	}
+	return out
 }
 
 // ---------- bounds ----------
